@@ -12,9 +12,17 @@
 //   N        open a new connection (closing the current one)         W<ms> sleep
 //   P        run the configured probe request of this protocol on a separate connection now (token p=<proto>:<hex>)
 //   P:<proto> same, for another protocol
+//   M:<proto>:<k>  k connections of that protocol at the same time: all are opened, then the probe request is sent on every one,
+//                  then all replies are read (token m=<proto>:<k>,<replies containing the configured probe body>,<time-outs>)
 // result line: r=<hex>[!T] per R/E step, p=<hex>[!T] per P step, then
 //   closed=<1 if the server closed every accepted socket of the case> calls=<sync>,<async>,<up_setup>,<up_main>,<on_error>,<on_end>,<setup_threw>,<chunk_bytes>
 //   probe=<hex>[!T]   (probe on a fresh connection after the case)
+//   stalled=1         the event loop did not run a posted marker within 8 s after the case (watchdog): the loop thread is stuck
+//                     (e.g. in a probe loop of connection::env_ that never ends); no final probe is attempted
+//   restart=1         the case timed out or stalled: the harness process ends after this line (the check starts a fresh one for
+//                     the remaining cases, so that one stuck thread costs a few seconds, not a harness-wide time-out)
+// echo replies carry a line E=<hexname>:<hexvalue>,... with the whole CGI environment (connection::getenv(), i.e. the walk
+// begin()..end() of the string_map) when the request has a variable HTTP_X_ENV.
 #include <cppcms/service.h>
 #include <cppcms/application.h>
 #include <cppcms/applications_pool.h>
@@ -84,6 +92,26 @@ static std::string echo_body(cppcms::http::request &rq)
 	std::pair<void *, size_t> raw = rq.raw_post_data();
 	b += "B=" + hex(std::string((char const *)raw.first, raw.second)) + "\n";
 	{ std::ostringstream ss; ss << rq.post().size() << "," << rq.files().size(); b += "F=" + ss.str() + "\n"; }
+	std::string look = rq.getenv("HTTP_X_ENV");
+	if (!look.empty()) {
+		// single look-ups (string_map::get) of the names listed in HTTP_X_ENV (n1;n2;...), present and absent ones; then the whole
+		// table is walked (connection::getenv() = begin()..end())
+		b += "G=";
+		size_t q = 0;
+		while (q <= look.size()) {
+			size_t e = look.find(';', q);
+			if (e == std::string::npos) e = look.size();
+			std::string n = look.substr(q, e - q);
+			b += hex(n) + ":" + hex(rq.getenv(n)) + ",";
+			q = e + 1;
+		}
+		b += "\n";
+		std::map<std::string, std::string> const &env = rq.getenv();
+		b += "E=";
+		for (std::map<std::string, std::string>::const_iterator p = env.begin(); p != env.end(); ++p)
+			b += hex(p->first) + ":" + hex(p->second) + ",";
+		b += "\n";
+	}
 	return b;
 }
 
@@ -309,6 +337,56 @@ static std::string read_step(client &c, std::string const &proto, bool to_eof, s
 	return hex(buf) + (timeout ? "!T" : "");
 }
 
+static std::string g_probe_body;
+static cppcms::service *g_srv = 0;
+// k simultaneous connections carrying the probe request: the event loop sees many sockets readable in one poll (its event
+// array holds 128 entries, its fd map grows with the highest descriptor)
+static std::string run_many(std::string const &proto, int k)
+{
+	std::map<std::string, std::string>::const_iterator p = g_probe.find(proto);
+	if (p == g_probe.end() || k < 0 || k > 1500) return "noprobe";
+	std::vector<client> cs(k);
+	int okc = 0, to = 0;
+	long before = accept_count;
+	for (int i = 0; i < k; i++) {
+		client &c = cs[i];
+		if (proto == "http") {
+			c.tcp = true;
+			c.fd = socket(AF_INET, SOCK_STREAM, 0);
+			int one = 1; setsockopt(c.fd, IPPROTO_TCP, TCP_NODELAY, &one, sizeof(one));
+			sockaddr_in a; memset(&a, 0, sizeof(a)); a.sin_family = AF_INET; a.sin_addr.s_addr = htonl(INADDR_LOOPBACK); a.sin_port = htons(g_port);
+			if (connect(c.fd, (sockaddr *)&a, sizeof(a)) != 0) { ::close(c.fd); c.fd = -1; }
+		}
+		else {
+			c.fd = socket(AF_UNIX, SOCK_STREAM, 0);
+			sockaddr_un a; memset(&a, 0, sizeof(a)); a.sun_family = AF_UNIX;
+			std::string path = g_dir + "/" + proto + ".sock";
+			strncpy(a.sun_path, path.c_str(), sizeof(a.sun_path) - 1);
+			if (connect(c.fd, (sockaddr *)&a, sizeof(a)) != 0) { ::close(c.fd); c.fd = -1; }
+		}
+		if (c.fd >= 0) { timeval tv; tv.tv_sec = 3; tv.tv_usec = 0; setsockopt(c.fd, SOL_SOCKET, SO_SNDTIMEO, &tv, sizeof(tv)); }
+	}
+	// all k connections accepted (registered with the reactor)? then keep the event loop busy for a moment while the k requests are
+	// sent, so that the next poll finds all of them readable at once
+	for (int i = 0; i < 200000 && accept_count < before + k; i++) usleep(50);
+	if (g_srv) {
+		int ms = 40 + k / 2;
+		g_srv->post([ms]() { usleep(1000 * ms); });
+		usleep(5000);
+	}
+	for (int i = 0; i < k; i++) if (cs[i].fd >= 0) cs[i].send_all(p->second);
+	for (int i = 0; i < k; i++) {
+		if (cs[i].fd < 0) continue;
+		std::string left;
+		std::string r = read_step(cs[i], proto, proto != "fcgi", left);
+		if (r.size() >= 2 && r.substr(r.size() - 2) == "!T") { to++; r.resize(r.size() - 2); }
+		if (!g_probe_body.empty() && unhex(r).find(g_probe_body) != std::string::npos) okc++;
+	}
+	for (int i = 0; i < k; i++) cs[i].closefd();
+	std::ostringstream ss; ss << proto << ":" << k << "," << okc << "," << to;
+	return ss.str();
+}
+
 static std::string run_probe(std::string const &proto)
 {
 	std::map<std::string, std::string>::const_iterator p = g_probe.find(proto);
@@ -343,6 +421,7 @@ int main(int argc, char **argv)
 	cfg["service"]["list"][2]["api"] = "fastcgi";
 	cfg["service"]["list"][2]["socket"] = g_dir + "/fcgi.sock";
 	cfg["service"]["worker_threads"] = 2;
+	cfg["service"]["backlog"] = 1024;
 	cfg["service"]["input_buffer_size"] = 512;
 	cfg["http"]["script_names"][0] = "/sync";
 	cfg["http"]["script_names"][1] = "/async";
@@ -360,6 +439,7 @@ int main(int argc, char **argv)
 	int rc = 0;
 	try {
 		cppcms::service srv(cfg);
+		g_srv = &srv;
 		srv.applications_pool().mount(cppcms::create_pool<echo>(), cppcms::mount_point("/sync"));
 		srv.applications_pool().mount(cppcms::create_pool<echo>(), cppcms::mount_point("/probe"));
 		srv.applications_pool().mount(cppcms::create_pool<echo>(), cppcms::mount_point("/async"), cppcms::app::asynchronous);
@@ -388,6 +468,7 @@ int main(int argc, char **argv)
 			std::vector<std::string> v = split(line);
 			if (v.empty()) { std::cout << "BAD-CASE" << std::endl; continue; }
 			if (v[0] == "probe" && v.size() == 3) { g_probe[v[1]] = unhex(v[2]); std::cout << "probe-set" << std::endl; continue; }
+			if (v[0] == "probe-body" && v.size() == 2) { g_probe_body = unhex(v[1]); std::cout << "probe-set" << std::endl; continue; }
 			int c0 = g_sync_calls, c1 = g_async_calls, c2 = g_up_setup, c3 = g_up_main, c4 = g_on_error, c5 = g_on_end, c7 = g_up_abort;
 			long c6 = g_chunk_bytes;
 			std::string proto = v[0];
@@ -412,24 +493,55 @@ int main(int argc, char **argv)
 				}
 				else if (s == "P") out << "p=" << proto << ":" << run_probe(proto) << " ";
 				else if (s.size() > 2 && s[0] == 'P' && s[1] == ':') out << "p=" << s.substr(2) << ":" << run_probe(s.substr(2)) << " ";
+				else if (s.size() > 2 && s[0] == 'M' && s[1] == ':') {
+					size_t q = s.find(':', 2);
+					if (q == std::string::npos) out << "BAD-STEP ";
+					else {
+						// let the event loop finish accepting / closing what is pending, so that the descriptors of this step are its own
+						out << "m=" << run_many(s.substr(2, q - 2), atoi(s.c_str() + q + 1)) << " ";
+					}
+				}
 				else if (s.size() > 1 && s[0] == 'W') { usleep(1000 * atoi(s.c_str() + 1)); }
-				else if (s.size() > 1 && s[0] == 'X' && s[1] == ':') { /* annotation for the oracle */ }
+				else if (s.size() > 1 && (s[0] == 'X' || s[0] == 'V') && s[1] == ':') { /* annotation for the oracle */ }
 				else out << "BAD-STEP ";
 			}
 			c.closefd();
-			bool closed = c.wait_server_closed(3000);
-			for (size_t i = 0; i < done.size(); i++) closed = done[i].wait_server_closed(3000) && closed;
+			bool timed_out = out.str().find("!T") != std::string::npos;
+			bool stalled = false;
 			{
-				// the handler that closed the socket may still be running (on_error is called after do_eof): let the
-				// event loop finish it - a posted marker runs after the current handler returned
+				// watchdog: a marker posted to the event loop runs as soon as the loop thread returns from the current handler
+				// (the handler that closed the socket may still be running: on_error is called after do_eof). A loop thread that
+				// does not get there within 8 s is stuck.
 				std::atomic<int> *flag = new std::atomic<int>(0);
 				srv.post([flag]() { *flag = 1; });
-				for (int i = 0; i < 200000 && !*flag; i++) usleep(50);
+				// (after a read that already timed out the loop has been silent for 4 s: 4 more seconds, 8 s otherwise)
+				for (int i = 0; i < (timed_out ? 80000 : 160000) && !*flag; i++) usleep(50);
+				stalled = !*flag;
+			}
+			bool closed = stalled ? false : c.wait_server_closed(3000);
+			for (size_t i = 0; !stalled && i < done.size(); i++) closed = done[i].wait_server_closed(3000) && closed;
+			if (!stalled) {
+				std::atomic<int> *flag = new std::atomic<int>(0);
+				srv.post([flag]() { *flag = 1; });
+				for (int i = 0; i < 160000 && !*flag; i++) usleep(50);
+				stalled = !*flag;
 			}
 			out << "closed=" << (closed ? 1 : 0) << " ";
 			out << "calls=" << (g_sync_calls - c0) << "," << (g_async_calls - c1) << "," << (g_up_setup - c2) << "," << (g_up_main - c3)
 			    << "," << (g_on_error - c4) << "," << (g_on_end - c5) << "," << (g_up_abort - c7) << "," << (g_chunk_bytes - c6);
-			out << " probe=" << run_probe(proto);
+			if (stalled) out << " stalled=1 probe=-";
+			else {
+				std::string pr = run_probe(proto);
+				if (pr.find("!T") != std::string::npos) timed_out = true;
+				out << " probe=" << pr;
+			}
+			if (stalled || timed_out) {
+				out << " restart=1";
+				std::cout << out.str() << std::endl;
+				std::string cmd = "rm -rf '" + g_dir + "'";
+				if (system(cmd.c_str())) {}
+				_exit(4);
+			}
 			std::cout << out.str() << std::endl;
 		}
 		srv.shutdown();
